@@ -698,6 +698,7 @@ def pipeline_part(ctx, exe, mexe, d):
                                "reduction log, does not reproduce the run-time value", model=e, runtime=rval), no_input=True)
         elif valcmp and e != cval:
             ndiff += 1
+            ctx.count("model_vs_compiled_value_mismatches")
             ctx.violation(dict(base, input=inp, what="value computed by the generated wrappers/actions differs from the value the "
                                "proved wrapper model computes from the run-time parse", model=e, compiled=cval,
                                authority="C13_wrapper_args_spec, C13_dollar_k_denotes_kth"))
